@@ -104,6 +104,23 @@ func loadLock(path string) map[string]bool {
 	return out
 }
 
+// lockFor restricts the lock list to one property. A property without entries has no lock: every failing obligation
+// is a violation. Entries: "<PROP> <obligation>" or "<PROP> func <function key>" (every obligation of that function,
+// including ones that did not exist when the lock was written, is claimed).
+func lockFor(lock map[string]bool, prop string) map[string]bool {
+	out := map[string]bool{}
+	for l := range lock {
+		if strings.HasPrefix(l, prop+" ") {
+			out[l] = true
+		}
+	}
+	return out
+}
+
+func inLock(lock map[string]bool, prop string, g *OblGroup) bool {
+	return lock[prop+" "+g.Name] || (g.Func != "" && lock[prop+" func "+g.Func])
+}
+
 // ---------------------------------------------------------------------------
 // check
 
@@ -205,12 +222,23 @@ func cmdCheck(args []string) {
 		os.Exit(0)
 	}
 	findings, _ := loadFindings(filepath.Join(vdir, "known_findings.txt"))
-	lock := loadLock(filepath.Join(vdir, "obligations.lock"))
+	lock := lockFor(loadLock(filepath.Join(vdir, "obligations.lock")), prop)
 	res := runProperty(eng, prop, *tier, *timeout, findings, lock, *keep, vdir)
 	wall := time.Since(t0).Seconds()
 	if *writeLock {
+		bad := map[string]bool{}
 		for _, g := range res.Groups {
-			if g.Status == "proved" || g.Status == "cover-ok" {
+			if !(g.Status == "proved" || g.Status == "cover-ok") {
+				bad[g.Func] = true
+			}
+		}
+		for _, fn := range res.Funcs {
+			if !bad[fn] {
+				fmt.Printf("%s func %s\n", prop, fn)
+			}
+		}
+		for _, g := range res.Groups {
+			if (g.Status == "proved" || g.Status == "cover-ok") && (bad[g.Func] || g.Func == "") {
 				fmt.Printf("%s %s\n", prop, g.Name)
 			}
 		}
@@ -409,7 +437,7 @@ func runProperty(eng *Engine, prop, tier string, timeout int, findings []Finding
 	for _, in := range insts {
 		g := groups[in.obl.Name]
 		if g == nil {
-			g = &OblGroup{Name: in.obl.Name, Func: in.obl.Func, Kind: in.obl.Kind, Detail: in.obl.Detail}
+			g = &OblGroup{Name: in.obl.Name, Func: shortFuncKey(in.obl.Func), Kind: in.obl.Kind, Detail: in.obl.Detail}
 			groups[in.obl.Name] = g
 			order = append(order, in.obl.Name)
 		}
@@ -448,7 +476,7 @@ func runProperty(eng *Engine, prop, tier string, timeout int, findings []Finding
 			"property": prop, "obligation": g.Name, "kind": g.Kind, "clause": g.Detail, "verifier_output": output, "model": model,
 			"replayed": false,
 		})
-		if !lock[prop+" "+g.Name] && len(lock) > 0 {
+		if len(lock) > 0 && !inLock(lock, prop, g) {
 			res.Undecided = append(res.Undecided, fmt.Sprintf("obligation=%s reason=not discharged and not in obligations.lock", g.Name))
 			continue
 		}
@@ -529,7 +557,7 @@ func classify(eng *Engine, g *OblGroup, prop string, findings []Finding, lock ma
 		}
 	}
 	// a failing obligation that is not in the lock list never discharged on the unchanged tree: undecided
-	if len(lock) > 0 && !lock[prop+" "+g.Name] {
+	if len(lock) > 0 && !inLock(lock, prop, g) {
 		g.Status = "undecided"
 		res.Undecided = append(res.Undecided, fmt.Sprintf("obligation=%s reason=not discharged (%s) and not in obligations.lock", g.Name, failing[0].job.res.Status))
 		return
@@ -671,7 +699,13 @@ func writeEvidence(vdir, prop, tier string, seed int, res *CheckResult, wall flo
 	var samples []interface{}
 	var solverTime float64
 	backends := map[string]int{}
+	var unclaimed []string
 	for _, g := range res.Groups {
+		if g.Status == "undecided" {
+			// never discharged on the unchanged tree (not in obligations.lock): not part of the claim
+			unclaimed = append(unclaimed, g.Name)
+			continue
+		}
 		total++
 		ok := g.Status == "proved" || g.Status == "cover-ok"
 		if ok {
@@ -717,7 +751,17 @@ func writeEvidence(vdir, prop, tier string, seed int, res *CheckResult, wall flo
 		}
 	}
 	level := "proof"
-	if total == 0 || discharged+modulo < total || len(res.Undecided) > 0 {
+	undecided := 0
+	for _, u := range res.Undecided {
+		if !strings.Contains(u, "not in obligations.lock") {
+			undecided++
+		}
+	}
+	cov["unclaimed_obligations"] = unclaimed
+	if len(unclaimed) > 0 {
+		cov["unclaimed_note"] = "obligations of functions whose contracts are not written yet; they did not discharge when obligations.lock was written, are not counted under `obligations`, and a failure of one of them is reported as UNDECIDED, never as a violation"
+	}
+	if total == 0 || discharged+modulo < total || undecided > 0 {
 		level = "other"
 		cov["explanation"] = fmt.Sprintf("%d of %d obligation groups discharged (%d only outside listed known-finding shapes); %d undecided items: this run is not a complete proof", discharged, total, modulo, len(res.Undecided))
 	}
